@@ -849,7 +849,7 @@ def gen_cases(ctx):
     # steady-state / parameter-free inheritance and metrics that fail on sub-graphs
     if hasattr(optrun, 'regularization_config'):
         regs = [('steady_state', {'only_initial': 'raise'}), ('steady_state', {'by_class': [2, 0, 'nan']}),
-                ('parameter_free', {'by_class': [2, 1, 'none']}), ('steady_state', {'every': 2})]
+                ('parameter_free', {'every': 2}), ('steady_state', {'every': 2})]
         if not quick:
             regs = [(sch, f) for sch in ('steady_state', 'parameter_free', 'generational')
                     for f in ({'only_initial': 'raise'}, {'only_initial': 'nan'}, {'by_class': [2, 0, 'nan']}, {'by_class': [2, 1, 'raise']},
@@ -858,8 +858,7 @@ def gen_cases(ctx):
             cfg = optrun.regularization_config(rng)
             cfg.pop('rule', None)
             cfg.update({'scheme': sch, 'initial': rng.choice(['big', 'big', 'mixed_sizes', 'chain']), 'show_progress': bool(i % 2),
-                        'timeout_min': 5.0, 'diversity_check': -1,
-                        'selection': ['tournament']})   # spea2 + failed sub-graphs: TypeError on the unchanged tree (reported)
+                        'timeout_min': 5.0, 'diversity_check': -1, 'selection': [['spea2', 'tournament'][i % 2]]})
             if 'every' in f:
                 f = {'by_index': {str(x): KINDS[i % 3] for x in range(1, 200, f['every'])}}
             cfg['objective'] = {'metrics': [rng.choice(['size', 'balance', 'label'])], 'multi': False, 'faults': f}
@@ -942,6 +941,14 @@ def _work(case):
             return run_case({k: v for k, v in case.items() if k != 'group'})
     except BaseException as ex:  # noqa
         return {'case': case, 'crash': '%s: %s\n%s' % (type(ex).__name__, ex, traceback.format_exc()[-1500:])}
+    finally:
+        if case['cfg'].get('n_jobs', 1) > 1:
+            # joblib keeps its worker processes for 300 s: release them, or this process cannot exit
+            try:
+                from joblib.externals.loky import get_reusable_executor
+                get_reusable_executor().shutdown(wait=True, kill_workers=True)
+            except Exception:  # noqa
+                pass
 
 
 def summarise(case, rec, facts):
